@@ -629,6 +629,13 @@ func vmMethodDecl(p *core.Program, vm *eng.VMModel, fn *types.Func) *ast.FuncDec
 	info := p.Pkg("vm").TypesInfo
 	for _, fd := range p.FuncDecls("vm") {
 		if fd.Body != nil && fd != vm.Run && core.RecvName(fd) == vm.VMType.Obj().Name() && info.Defs[fd.Name] == types.Object(fn) {
+			// a method with a VALUE receiver works on a copy of the machine: what it adds to the
+			// counter is lost when it returns, so its statements are not the handler's
+			if len(fd.Recv.List) == 1 {
+				if _, isPtr := fd.Recv.List[0].Type.(*ast.StarExpr); !isPtr {
+					return nil
+				}
+			}
 			return fd
 		}
 	}
